@@ -1,6 +1,6 @@
 use super::dynamic_constraints_encoder::DynamicConstraintsEncoder;
 use crate::{
-    aa::{AAFramework, Argument, Semantics},
+    aa::{AAFramework, Argument, ArgumentSet, Semantics},
     sat::SatSolver,
     utils::LabelType,
 };
@@ -37,6 +37,9 @@ where
     buffer: Vec<DynamicsEvent<T>>,
     next_to_encode: Cell<usize>,
     encoder: DynamicConstraintsEncoder,
+    // the framework as it will be once the buffered updates are applied;
+    // used to validate the updates when they are issued
+    pending_af: AAFramework<T>,
 }
 
 impl<T> BufferedDynamicConstraintsEncoder<T>
@@ -50,26 +53,37 @@ where
             buffer: Vec::new(),
             next_to_encode: Cell::new(0),
             encoder,
+            pending_af: AAFramework::new_with_argument_set(ArgumentSet::new_with_labels(&[])),
         }
     }
 
     pub fn buffer_new_argument(&mut self, label: T) {
-        self.buffer.push(DynamicsEvent::NewArgument(label))
+        let n_arguments = self.pending_af.n_arguments();
+        self.pending_af.new_argument(label.clone());
+        if self.pending_af.n_arguments() > n_arguments {
+            self.buffer.push(DynamicsEvent::NewArgument(label))
+        }
     }
 
     pub fn buffer_remove_argument(&mut self, label: &T) -> Result<()> {
+        self.pending_af.remove_argument(label)?;
         self.buffer
             .push(DynamicsEvent::RemoveArgument(label.clone()));
         Ok(())
     }
 
     pub fn buffer_new_attack(&mut self, from: &T, to: &T) -> Result<()> {
-        self.buffer
-            .push(DynamicsEvent::NewAttack(from.clone(), to.clone()));
+        let n_attacks = self.pending_af.n_attacks();
+        self.pending_af.new_attack(from, to)?;
+        if self.pending_af.n_attacks() > n_attacks {
+            self.buffer
+                .push(DynamicsEvent::NewAttack(from.clone(), to.clone()));
+        }
         Ok(())
     }
 
     pub fn buffer_remove_attack(&mut self, from: &T, to: &T) -> Result<()> {
+        self.pending_af.remove_attack(from, to)?;
         self.buffer
             .push(DynamicsEvent::RemoveAttack(from.clone(), to.clone()));
         Ok(())
